@@ -381,7 +381,9 @@ func cmdCheck() int {
 			file := filepath.Join(*flagReplay, fmt.Sprintf("%s_%s_%d.json", h.Opts.Prop, h.Name, len(violLines)))
 			writeReplayFile(file, h, f)
 			f.Replay = file
-			if !*flagNoRep {
+			if f.Status == "abstract" {
+				f.Status = "abstract-level counterexample over free partial products (not natively replayable)"
+			} else if !*flagNoRep {
 				st := nativeReplay(file, h, f, ovDecls)
 				f.Status = st
 				nReplayed++
@@ -611,7 +613,7 @@ func runNative(file, relDir, harness, pkgName string, ovDecls []harnessDecl, tag
 	ovj, _ := json.Marshal(map[string]interface{}{"Replace": repl})
 	ovf := filepath.Join(tmp, "overlay.json")
 	os.WriteFile(ovf, ovj, 0o644)
-	args := []string{"test", "-vet=off", "-count=1", "-overlay", ovf, "-run", "^TestZZReplay$", "-timeout", "300s"}
+	args := []string{"test", "-v", "-vet=off", "-count=1", "-overlay", ovf, "-run", "^TestZZReplay$", "-timeout", "300s"}
 	if tags != "" {
 		args = append(args, "-tags", tags)
 	}
